@@ -727,7 +727,15 @@ type vConsumerOp struct {
 
 type vResolver map[string]crypto.PublicKey
 
-func (r vResolver) ResolvePublicKey(kid string, _ []hash.SHA256Hash) (crypto.PublicKey, error) {
+// vDelisted : kid -> transaction refs as of which the key is no longer in the signer's document (a key history)
+var vDelisted = map[string]map[hash.SHA256Hash]bool{}
+
+func (r vResolver) ResolvePublicKey(kid string, prevs []hash.SHA256Hash) (crypto.PublicKey, error) {
+	for _, p := range prevs {
+		if vDelisted[kid][p] {
+			return nil, errors.New("key not found in the document as of the given transactions")
+		}
+	}
 	if k, ok := r[kid]; ok {
 		return k, nil
 	}
@@ -1009,6 +1017,64 @@ func TestVerifC17(t *testing.T) {
 					res = "reject"
 				}
 				out.emit(vConsumerOp{Op: "consume", C: "apitoken", Name: v.Name, Class: v.Class, HAlg: v.HAlg, By: v.By, Info: info, V: verd}, res)
+			}
+		}
+	}
+	// ---------------- key HISTORIES on the long-lived verifier: the same kid, listed in the signer's document as of some
+	// transactions and removed as of later ones. The verification key is what the resolver says for (kid, prevs) NOW.
+	{
+		pListed, pRemoved := hash.SHA256Sum([]byte("prev")), hash.SHA256Sum([]byte("prev-after-key-removal"))
+		for _, k := range signers {
+			if _, isEd := k.priv.(ed25519.PrivateKey); isEd {
+				continue
+			}
+			vDelisted[k.kid] = map[hash.SHA256Hash]bool{pRemoved: true}
+			steps := []struct {
+				name  string
+				prevs []hash.SHA256Hash
+			}{{"1-listed", []hash.SHA256Hash{pListed}}, {"2-removed", []hash.SHA256Hash{pRemoved}}, {"3-listed-again", []hash.SHA256Hash{pListed}},
+				{"4-removed-two-prevs", []hash.SHA256Hash{pListed, pRemoved}}}
+			for _, st := range steps {
+				name := "history-" + k.name + "-" + st.name
+				if len(only) > 0 {
+					hist := false
+					for o := range only {
+						hist = hist || strings.HasPrefix(o, "dagtx|history-"+k.name)
+					}
+					if !hist {
+						continue
+					}
+				}
+				var ps []string
+				for _, p := range st.prevs {
+					ps = append(ps, p.String())
+				}
+				hdr := map[string]interface{}{"cty": "application/did+json", "crit": []string{"sigt", "ver", "prevs", "lc"}, "sigt": now.Unix(), "ver": 2,
+					"prevs": ps, "lc": 1, "kid": k.kid}
+				b := vBase{hdr: hdr, payload: []byte(hash.SHA256Sum([]byte("payload")).String()), signer: k, other: k, attacker: attackers[0]}
+				tok := vCompact(b.sigFor(k), b.payload)
+				info, msg := vAnalyse(tok)
+				verd := map[string]interface{}{"framing": vDagFramingOK([]byte(tok))}
+				h := msg.Signatures()[0].ProtectedHeaders()
+				verd["otherok"] = vDagOtherHeadersOK(h, msg)
+				pk, err := source.ResolvePublicKey(k.kid, st.prevs) // what the key source says NOW for (kid, prevs)
+				verd["keyfound"] = err == nil
+				if err == nil {
+					_, verr := jws.Verify([]byte(tok), jws.WithKey(h.Algorithm(), pk))
+					verd["verified"], verd["fits"] = verr == nil, VAlgFitsKey(string(h.Algorithm()), pk)
+				}
+				class := "valid"
+				if err != nil {
+					class = "key-removed-as-of-prevs"
+				}
+				res := vRecover(func() string {
+					tx, err := dag.ParseTransaction([]byte(tok))
+					if err != nil {
+						return "reject"
+					}
+					return vOK(dagVerifier(nil, tx))
+				})
+				out.emit(vConsumerOp{Op: "consume", C: "dagtx", Name: name, Class: class, HAlg: string(k.alg), By: "signer", Info: info, V: verd}, res)
 			}
 		}
 	}
